@@ -414,6 +414,13 @@ Section Whole.
     - inversion Hpu; reflexivity.
   Qed.
 
+  (* eval()'s test "is there a backtick at all" is no longer what protects positional brackets: the rewriter alone would do *)
+  Theorem eval_text_is_rewrite s : eval_text s = rewrite s.
+  Proof.
+    unfold EvalIdx.eval_text. destruct (has_char ch_tick s) eqn:E; [reflexivity|].
+    symmetry. apply rewrite_no_tick_identity. exact E.
+  Qed.
+
   Corollary eval_text_exceptions s e : eval_text s = Raise e -> rewrite_exn_ok e.
   Proof. unfold EvalIdx.eval_text. destruct (has_char ch_tick s); [apply rewrite_exceptions|discriminate]. Qed.
 
@@ -481,5 +488,20 @@ Section WholeEval.
   Proof.
     intros Hs Ht Hb HF He. apply eval_rewrite_error.
     rewrite (eval_text_backtick has locate _ Hb). eapply rewrite_whole_first_error; eassumption.
+  Qed.
+
+  (* EVERY expression: the text CPython evaluates is the concatenation of the per-piece outputs of the expression's pieces, in
+     which every piece without a backtick — every positional bracket, wherever it stands — is the piece itself *)
+  Theorem eval_positional_brackets_untouched dh tbl vars locals bi expr text :
+    eval_text has locate expr = Ret text ->
+    (forall l, bi = Some l -> (l < List.length dh)%nat) ->
+    snd (eval_M V has locate pyeval dh tbl vars expr locals bi)
+      = convert V (pyeval text (ns_update V (ns_update V (base_dict V dh tbl bi) vars) (locals_ns V locals))) /\
+    exists ts, Forall2 (fun p u => piece_out has locate p = Ret u) (scan expr) ts /\ text = sconcat ts /\
+               Forall2 (fun p u => has_char ch_tick (piece_src p) = false -> u = piece_src p) (scan expr) ts.
+  Proof.
+    intros HT Hbi. split.
+    - pose proof (eval_spec V has locate pyeval dh tbl vars expr locals bi text HT Hbi) as S. cbv zeta in S. exact (proj1 S).
+    - apply rewrite_pieces. rewrite <- eval_text_is_rewrite. exact HT.
   Qed.
 End WholeEval.
